@@ -462,6 +462,8 @@ def rule_parked(ctx, rep, rule="R-PARKED"):
                     i1 = i0 + 1 + blocks[i0 + 1 :].index(started["bb"])
                     if any(x in unpark for x in blocks[i0 + 1 : i1]):
                         continue
+                    if _sized_by_existing_input(F, E, b, B, started["bb"]):
+                        continue
                     bad = (p, started)
                     break
                 if bad:
@@ -470,6 +472,28 @@ def rule_parked(ctx, rep, rule="R-PARKED"):
                 else:
                     rep.ok(rule, ik, cfg=tag)
     return n
+
+
+def _sized_by_existing_input(F, E, b, B, bb):
+    """The call in block bb is one of the crate's allocation helpers and every length it is given is `len()` of a container the
+    caller passed in: its only panic is the layout computation overflowing, which a block sized by the number of elements of an
+    object that already exists in memory (plus a header value that also exists) cannot do - not a panic a caller can provoke."""
+    from . import atomics, symx
+    from .props import c03, c06
+
+    t = b["blocks"][bb]["term"]
+    if t["k"] != "call":
+        return False
+    k = atomics.callee_of(t)
+    if k not in F.bodies or not c03._is_alloc_helper(E, k) or not t["args"]:
+        return False
+    for a in t["args"]:
+        e = c06.nobb(symx.expr(F, B, a))
+        if e[0] == "const":
+            continue
+        if not (e[0] == "call" and e[2] == "len" and e[3] and any(c06._rooted_at_arg(e[3][0], i) for i in range(1, len(b["inputs"]) + 1))):
+            return False
+    return True
 
 
 def _rooted_local(B, op, l, depth=0):
